@@ -13,14 +13,14 @@ pub static DEF: CheckDef = CheckDef {
     id: "C08",
     run,
     replay,
-    rule: "instruction sequences over {EI, DI, RETI (as CALL to a RETI), HALT, STOP (second byte 0x00; in the generated sequences also any other second byte, EI/DI/HALT/RETI opcodes included - it is never executed), NOP, LD A,v; LDH (0x0F),A (raise requests), LD A,v; LDH (0xFF),A (write IE)} are assembled at 0x0150 of a ROM whose five interrupt vectors hold generated handlers (RETI / RET / EI;RET / NOP;RETI / DI;RETI / EI;RETI), and executed one instruction at a time with Core::update() in the interpreter build. Enumerated completely: all sequences up to length 5 (quick) or 6 (thorough) x initial master enable (off, on, EI-pending) x 6 initial IF/IE patterns x 2 handler sets; plus proptest sequences up to length 40 with arbitrary operands, handlers and initial run state. Oracle: lock-step reference machine (models::sm83 + models::irq on a twin bus): after every step PC, SP, all registers, master-enable state, run state, IF, IE and the pending dispatch cycles must be equal; complete machine state at the end. A case ends where the reference would execute HALT with an enabled request already pending (excluded quirk; counted). Non-trivial = sequence in which at least one of these events occurs in the reference run: EI;DI, EI;EI, EI followed by RETI, HALT or STOP right after EI, a dispatch, a wake-up without dispatch, a dispatch directly after RETI.",
+    rule: "instruction sequences over {EI, DI, RETI (as CALL to a RETI), HALT, STOP (second byte 0x00; in the generated sequences also any other second byte, EI/DI/HALT/RETI opcodes included - it is never executed), NOP, LD A,v; LDH (0x0F),A (raise requests), LD A,v; LDH (0xFF),A (write IE)} are assembled at 0x0150 of a ROM whose five interrupt vectors hold generated handlers (RETI / RET / EI;RET / NOP;RETI / DI;RETI / EI;RETI), and executed one instruction at a time with Core::update() in the interpreter build. Enumerated completely: all sequences up to length 5 (quick) or 6 (thorough) x initial master enable (off, on, EI-pending) x 6 initial IF/IE patterns x 2 handler sets; plus proptest sequences up to length 40 with arbitrary operands, handlers, initial run state and initial stack pointer (work RAM, or 0x0000 / 0x0001 / 0xFF10 / 0xFFFE, where a dispatch pushes onto IE or IF and can cancel itself). Oracle: lock-step reference machine (models::sm83 + models::irq on a twin bus): after every step PC, SP, all registers, master-enable state, run state, IF, IE and the pending dispatch cycles must be equal; complete machine state at the end. A case ends where the reference would execute HALT with an enabled request already pending (excluded quirk; counted). Non-trivial = sequence in which at least one of these events occurs in the reference run: EI;DI, EI;EI, EI followed by RETI, HALT or STOP right after EI, a dispatch, a wake-up without dispatch, a dispatch directly after RETI.",
     assumptions: &[
         "models::sm83 + models::irq: EI enables after the following instruction, DI and RETI immediately, HALT/STOP suspend until IF & IE != 0, wake-up without dispatch when the master enable is off",
         "STOP is treated like HALT, as the property states it (no joypad-only wake-up)",
         "HALT executed while IF & IE != 0 is outside the domain (hardware quirk excluded by the property)",
         "devices behind the bus come from the repository on both sides (no device interrupt occurs within these short runs unless the sequence programs one)",
     ],
-    required_classes: &["ei-di", "ei-ei", "ei-reti", "ei-halt", "ei-stop", "dispatch", "wake-without-dispatch", "dispatch-after-reti", "halt-suspended-steps", "stop-suspended-steps", "excluded-halt-quirk", "generated-sequence"],
+    required_classes: &["ei-di", "ei-ei", "ei-reti", "ei-halt", "ei-stop", "dispatch", "wake-without-dispatch", "dispatch-after-reti", "halt-suspended-steps", "stop-suspended-steps", "excluded-halt-quirk", "generated-sequence", "cancelled-dispatch"],
     exhaustive: true,
 };
 
@@ -46,7 +46,13 @@ struct Case {
     if0: u8,
     ie0: u8,
     handlers: [u8; 5],
+    /// initial stack pointer: index into SPS (0 = work RAM; the others make a dispatch push
+    /// onto IE / IF / the top of high RAM, so that it can cancel itself)
+    #[serde(default)]
+    sp_sel: u8,
 }
+
+const SPS: [u16; 5] = [0xdff0, 0x0000, 0x0001, 0xff10, 0xfffe];
 
 fn case_json(c: &Case) -> Value {
     json!({"kind": "seq", "case": c})
@@ -128,6 +134,7 @@ struct Events {
     halt_steps: u32,
     stop_steps: u32,
     quirk: bool,
+    cancelled: bool,
 }
 
 fn exec(w: &mut World, c: &Case, rec: &mut Rec, counting: bool) -> CaseResult {
@@ -136,7 +143,7 @@ fn exec(w: &mut World, c: &Case, rec: &mut Rec, counting: bool) -> CaseResult {
     w.r.t.restore(&w.snap);
     load(&mut w.a, c, &code);
     load(&mut w.r.t, c, &code);
-    let regs = Regs { af: 0x0100, bc: 0x0013, de: 0x00d8, hl: 0x014d, sp: 0xdff0, pc: 0x0150, cycles: 0 };
+    let regs = Regs { af: 0x0100, bc: 0x0013, de: 0x00d8, hl: 0x014d, sp: SPS[c.sp_sel as usize % SPS.len()] as u32, pc: 0x0150, cycles: 0 };
     for m in [&mut w.a, &mut w.r.t] {
         m.write(0xffff, c.ie0);
         m.write(0xff0f, c.if0);
@@ -189,7 +196,12 @@ fn exec(w: &mut World, c: &Case, rec: &mut Rec, counting: bool) -> CaseResult {
             }
         }
         match info.irq {
-            IrqOutcome::Dispatched { .. } => ev.dispatch = true,
+            IrqOutcome::Dispatched { ack, .. } => {
+                ev.dispatch = true;
+                if ack == 0 {
+                    ev.cancelled = true;
+                }
+            }
             IrqOutcome::Woke if info.was_suspended => ev.wake_no_dispatch = true,
             _ => {}
         }
@@ -253,6 +265,7 @@ fn exec(w: &mut World, c: &Case, rec: &mut Rec, counting: bool) -> CaseResult {
         nt |= mark(rec, "dispatch", ev.dispatch);
         nt |= mark(rec, "wake-without-dispatch", ev.wake_no_dispatch);
         nt |= mark(rec, "dispatch-after-reti", ev.dispatch_after_reti);
+        nt |= mark(rec, "cancelled-dispatch", ev.cancelled);
         mark(rec, "halt-suspended-steps", ev.halt_steps > 0);
         mark(rec, "stop-suspended-steps", ev.stop_steps > 0);
         if ev.quirk {
@@ -294,7 +307,7 @@ fn run(rec: &mut Rec) {
                             continue;
                         }
                         let handlers = if hs == 0 { [0u8; 5] } else { [2, 3, 1, 5, 4] };
-                        let c = Case { seq: seq.clone(), ime, run: RUN, if0: *if0, ie0: *ie0, handlers };
+                        let c = Case { seq: seq.clone(), ime, run: RUN, if0: *if0, ie0: *ie0, handlers, sp_sel: 0 };
                         if idx % 512 == 1 && pi == 0 {
                             rec.current(&case_json(&c).to_string());
                         }
@@ -324,13 +337,15 @@ fn run(rec: &mut Rec) {
         1 => any::<u8>().prop_map(Sym::Raise),
         3 => any::<u8>().prop_map(Sym::WriteIe),
     ];
-    let strat = (prop::collection::vec(sym, 0..40), 0u8..3, 0u8..3, 0u8..32, any::<u8>(), [0u8..6, 0u8..6, 0u8..6, 0u8..6, 0u8..6]).prop_map(|(seq, ime, run, if0, ie0, handlers)| Case {
+    let sp_sel = prop_oneof![6 => Just(0u8), 2 => Just(1u8), 1 => Just(2u8), 1 => Just(3u8), 1 => Just(4u8)];
+    let strat = (prop::collection::vec(sym, 0..40), 0u8..3, 0u8..3, 0u8..32, any::<u8>(), [0u8..6, 0u8..6, 0u8..6, 0u8..6, 0u8..6], sp_sel).prop_map(|(seq, ime, run, if0, ie0, handlers, sp_sel)| Case {
         seq,
         ime: [IME_DISABLED, IME_ENABLED, IME_ENABLE_NEXT][ime as usize],
         run: [RUN, HALTED, STOPPED][run as usize],
         if0,
         ie0,
         handlers,
+        sp_sel,
     });
     let world = std::cell::RefCell::new(w);
     run_generated(rec, "gen", cases, strat, case_json, |c, rec, counting| {
